@@ -38,6 +38,24 @@ theorem C12_gen_version_table :
     ∃ t, Generated.C12.versionTable = some t ∧ ∀ e ∈ t, parseVersion e.1 = e.2 :=
   ⟨_, rfl, by decide⟩
 
+/-- **Which attributes belong to the header.**  On the grid of 8 attribute namespaces (none,
+the bare `xml` prefix, the XML namespace, a foreign namespace, the stream namespace, `xmlns`,
+`jabber:client`, the framing namespace) × 9 local names the model's `applyAttrs` records
+exactly what the real `Info.FromStartElement` records (evaluated at extraction time): `id`,
+`version`, `to`, `from`, `xmlns` only without a namespace, `lang` only in the XML namespace —
+`x:id`, `stream:version`, `xml:to` … are not the header's. -/
+theorem C12_gen_attr_grid :
+    ∃ t, Generated.C12.attrGrid = some t ∧ ∀ e ∈ t, applyOne e.1 e.2.1 e.2.2.1 = e.2.2.2 :=
+  ⟨_, rfl, by decide⟩
+
+/-- the model reads an attribute into the stream information only under these names -/
+theorem C12_header_attribute_names (pj : String → Option String) (a : Attr) (i0 : Info)
+    (h : a.name ≠ ⟨"", "xmlns"⟩ ∧ a.name ≠ ⟨"", "to"⟩ ∧ a.name ≠ ⟨"", "from"⟩ ∧ a.name ≠ ⟨"", "id"⟩ ∧
+      a.name ≠ ⟨"", "version"⟩ ∧ a.name ≠ ⟨nsXML, "lang"⟩ ∧ a.name ≠ ⟨"xml", "lang"⟩)
+    (as : List Attr) : applyAttrs pj (a :: as) i0 = applyAttrs pj as i0 := by
+  obtain ⟨h1, h2, h3, h4, h5, h6, h7⟩ := h
+  simp [applyAttrs, h1, h2, h3, h4, h5, h6, h7]
+
 /-- the `bind` feature value keeps no mutable state either: no variable of `bind` (bind.go) is
 written or address-taken inside its `List` / `Parse` / `Negotiate` closures, so the sessions
 that share one `BindResource()` / `BindCustom(…)` value share nothing that changes -/
